@@ -49,7 +49,7 @@ META = {
         "depth one and two) is modelled and tied by correspondence and the oracle; for loops only PARTIAL theorems are "
         "proved (C19_loop_groups_partial: allocating non-overlapping loop-carried groups whose iter operand dies at the "
         "loop and whose yield operand is a body value preserves the invariant; C19_loop_reserve_partial; "
-        "C19_loop_body_partial: the body walk under reservation re-establishes it at every body point), the end-to-end "
+        "C19_loop_rebase_partial; C19_loop_body_partial: the body walk under reservation re-establishes it at every body point), the end-to-end "
         "loop theorem and loop semantics are not finished. Open known finding C19-kf-3 (yield of the induction variable, "
         "C19_loop_yield_iv_refuted). Tie: the model is run next to the real "
         "riscv/x86 allocate_func on generated functions and the complete value->register map and final RegisterStack are "
